@@ -148,6 +148,20 @@ pub fn list_coin(elem: Fuzzer<a>) -> Fuzzer<List<a>> {
       )
 }
 
+fn burn(n: Int) -> Int {
+  if n <= 0 {
+    0
+  } else {
+    burn(n - 1)
+  }
+}
+
+/// One draw, then enough work that a single generation costs more than the default script
+/// budget (generation and replay must both be run under the same, unlimited, budget).
+pub fn heavy() -> Fuzzer<Int> {
+  byte() |> map(fn(x) { burn(20000) + x })
+}
+
 /// Reads two choices, uses only the first (trailing unused choice).
 pub fn wasteful() -> Fuzzer<Int> {
   map2(byte(), byte(), fn(a, _b) { a })
@@ -289,6 +303,15 @@ impl DataModule {
             s.push_str("pub type Rec {\n  owner: ByteArray,\n  limit: Int,\n  extra: List<Int>,\n}\n\n");
         } else {
             s.push_str("pub type Rec {\n  owner: ByteArray,\n  limit: Int,\n}\n\n");
+        }
+        // public types that only matter to `aiken build --all-types`: a generic record used at a
+        // nested instance by one type and at a flat one by another, and a record with a field that
+        // has no data schema, held by another record
+        if self.limit % 2 == 0 {
+            s.push_str("pub type Two<a> {\n  l: a,\n  r: a,\n}\n\npub type HoldsTwo {\n  a: Two<Int>,\n}\n\npub type HoldsNested {\n  b: Two<Two<Int>>,\n}\n\n");
+        }
+        if self.limit % 3 == 0 {
+            s.push_str("pub type Curve {\n  p: G1Element,\n}\n\npub type HoldsCurve {\n  f: Curve,\n}\n\n");
         }
         let table = self
             .table
@@ -495,7 +518,7 @@ fn validator_module(rng: &mut Rng, idx: usize, data: &[DataModule]) -> String {
         s.push_str(&format!("validator {vname}{plist} {{\n"));
         let handlers = 1 + rng.usize_below(3);
         s.push_str(&format!(
-            "  spend(datum: Option<{an}.Rec>, redeemer: Int, _own_ref: Data, _self: Data) {{\n    expect Some(d) = datum\n    {an}.check_rec(d, redeemer + {psum}) && {bn}.len({bn}.table) >= {k} && {an}.must_when(redeemer > 5, datum) >= 0\n  }}\n\n",
+            "  spend(datum: Option<{an}.Rec>, redeemer: Int, _own_ref: Data, _self: Data) {{\n    /// the datum must be present\n    expect Some(d) = datum\n    {an}.check_rec(d, redeemer + {psum}) && {bn}.len({bn}.table) >= {k} && {an}.must_when(redeemer > 5, datum) >= 0\n  }}\n\n",
             an = a.name,
             bn = b.name,
             k = rng.range(0, 4)
